@@ -576,6 +576,12 @@ func runC16(c *Ctx) {
 // checkEOFCondition verifies that STATUS is returned exactly under err != nil && (err != io.EOF || n == 0)
 // for the call `call` (whose results are n, err) in fn.
 func checkEOFCondition(c *Ctx, fn *ssa.Function, call *ssa.Call, rule, name string) {
+	checkEOFConditionX(c, fn, call, rule, name, false, "answers the entries", "the entries")
+}
+
+// checkEOFConditionX: with viaErrVar the site does not return at once but selects the error for a later common reply
+// (`if cond { err = _err }`): "answers STATUS" is then "the call's error is what flows on into the join".
+func checkEOFConditionX(c *Ctx, fn *ssa.Function, call *ssa.Call, rule, name string, viaErrVar bool, okText, okNoun string) {
 	p := c.P
 	var errEx, nEx *ssa.Extract
 	for _, r := range *call.Referrers() {
@@ -636,8 +642,32 @@ func checkEOFCondition(c *Ctx, fn *ssa.Function, call *ssa.Call, rule, name stri
 		b := start
 		steps := 0
 		status := -1
+		var prev *ssa.BasicBlock
 		for steps < 50 {
 			steps++
+			if viaErrVar && prev != nil {
+				// the edge taken selects the call's error for the join: that is the STATUS answer
+				sel := false
+				for k, pb := range b.Preds {
+					if pb != prev {
+						continue
+					}
+					for _, in := range b.Instrs {
+						ph, ok := in.(*ssa.Phi)
+						if !ok {
+							break
+						}
+						if k < len(ph.Edges) && (ph.Edges[k] == ssa.Value(errEx) || stripConv(ph.Edges[k]) == ssa.Value(errEx)) {
+							sel = true
+						}
+					}
+				}
+				if sel {
+					status = 1
+					break
+				}
+			}
+			prev = b
 			last := b.Instrs[len(b.Instrs)-1]
 			// does this block return a status?
 			if r, ok := last.(*ssa.Return); ok {
@@ -730,7 +760,7 @@ func checkEOFCondition(c *Ctx, fn *ssa.Function, call *ssa.Call, rule, name stri
 		}
 		desc := fmt.Sprintf("err=%s n%s", map[bool]string{true: "nil", false: map[bool]string{true: "EOF", false: "other"}[w.errEOF]}[w.errNil], map[bool]string{true: "=0", false: ">0"}[w.nZero])
 		c.check(status == want, rule, name+" status iff error without entries ("+desc+")", p.Pos(call.Pos()),
-			map[int]string{1: "answers STATUS", 0: "answers the entries"}[want], fmt.Sprintf("for %s the reply is %s; expected %s", desc, map[int]string{1: "a STATUS", 0: "not a STATUS", -1: "undetermined"}[status], map[int]string{1: "a STATUS", 0: "the entries"}[want]))
+			map[int]string{1: "answers STATUS", 0: okText}[want], fmt.Sprintf("for %s the reply is %s; expected %s", desc, map[int]string{1: "a STATUS", 0: "not a STATUS", -1: "undetermined"}[status], map[int]string{1: "a STATUS", 0: okNoun}[want]))
 	}
 }
 
